@@ -2,3 +2,6 @@ import XsdataModel.Py.Basic
 import XsdataModel.Py.TblEnv
 import XsdataModel.Tables
 import XsdataModel.Lex.Dates
+import XsdataModel.Ctx.Names
+import XsdataModel.Ctx.Universe
+import XsdataModel.Ctx.Context
